@@ -7,5 +7,6 @@ CONSTANTS
   MaxFail = 0
   AllowOk = FALSE
   StopInRetry = FALSE
+  Relay = FALSE
   RecordHist = FALSE
 PROPERTIES StopEnds
